@@ -175,6 +175,7 @@ SPEC = {
         "cast_to_literal_dropped_changes_meaning",
         # comparisons of a Prim are independent (NaN): the "opposite comparison" is not the negation (seeded mutant C01-3)
         "opposite_comparison_is_not_negation", "ifelse_opposite_condition_changes_meaning",
+        "statement_attribute_names_roundtrip",
         # vector layer (Thm/C01Vec.lean): shape-changing casts, swizzles, numeric constructors, component-wise operators
         "exporter_vec_shape_as_modelled", "swizzle_letters_are_identity", "vector_type_names_roundtrip",
         "vector_intrinsic_table_is_identity", "wide_constants_keep_kind_and_payload",
